@@ -68,6 +68,13 @@ DIRECTED = [
     [["S", ["a", "A"]], ["S", ["a", "B"]], ["A", ["a"]], ["B", ["b"]]],          # common prefix
     [["S", ["A", "a"]], ["A", ["B"]], ["A", []], ["B", ["C", "b", "C"]], ["C", ["c"]], ["C", []]],   # repeated nullable variable around a terminal
     [["S", ["A", "b"]], ["A", ["A", "b"]], ["A", ["B"]], ["B", ["C"]], ["C", []], ["C", ["c"]]],     # left recursion, nullable through a chain
+    # a variable that is generating through one production and nullable through another one, inside a nullable context
+    [["S", ["A", "c"]], ["A", ["a"]], ["A", ["B", "C"]], ["B", ["b"]], ["B", []], ["C", []]],
+    [["S", ["A", "c"]], ["A", ["a"]], ["A", ["B", "B"]], ["B", ["b"]], ["B", []]],
+    [["S", ["C", "c"]], ["C", ["A", "B"]], ["A", ["a"]], ["A", ["B", "B"]], ["B", ["b"]], ["B", []]],
+    [["S", ["C", "c"]], ["C", ["A"]], ["A", ["a"]], ["A", ["B"]], ["B", ["b"]], ["B", []]],
+    [["S", ["C", "c"]], ["C", ["A", "B"]], ["A", ["a"]], ["A", ["B"]], ["B", []]],
+    [["S", ["C", "c"]], ["C", ["A", "B"]], ["A", ["a"]], ["A", ["B", "B"]], ["B", []]],
 ]
 
 
@@ -135,7 +142,7 @@ def replay(case):
             evs.append(dict(_dict_event("get_follow_set", G2, guard.call(p2.get_follow_set)), via=conv))
     # a grammar object that answered other queries before the parser was built on it
     g6, _, _ = cfgh.make(case["prods"], case["vpool"], case["tpool"])
-    for q in (g6.is_empty, g6.get_generating_symbols, g6.remove_useless_symbols):
+    for q in (g6.is_empty, g6.get_generating_symbols):
         guard.call(q, timeout=2.0)
     p6 = LLOneParser(g6)
     evs.append(dict(_dict_event("get_first_set", G, guard.call(p6.get_first_set)), aged="grammar queried first"))
